@@ -1276,6 +1276,41 @@ fn prologue(g: &mut Gen, variant: u64) {
             }
         }
     }
+    if variant % 17 == 4 {
+        // a NON-identifiable container that may occur repeatedly (CAN-CLUSTER-CONDITIONAL) is copied next to a sibling whose
+        // identifiable descendants partly have the same names: the copied subtree holds a FRESH identifiable (Ch0, with a
+        // reference inside) in front of a COLLIDING one (Ch1) in depth-first order.  On the unchanged tree the copy succeeds and
+        // duplicates the path (known class C04-copy-container-duplicates-paths); a copy that is rejected at the collision must
+        // not leave the registrations made before it
+        let mk = |g: &mut Gen, cl: &[u8], chans: &[&[u8]]| -> Option<(usize, usize)> {
+            let c = oknum(&g.push(Op::CreateNamed(elems[0], n.elidx("CAN-CLUSTER"), cl.to_vec())))?;
+            let vs = oknum(&g.push(Op::CreateSub(c, n.elidx("CAN-CLUSTER-VARIANTS"))))?;
+            let cond = oknum(&g.push(Op::CreateSub(vs, n.elidx("CAN-CLUSTER-CONDITIONAL"))))?;
+            let pcs = oknum(&g.push(Op::CreateSub(cond, n.elidx("PHYSICAL-CHANNELS"))))?;
+            for (i, ch) in chans.iter().enumerate() {
+                let h = oknum(&g.push(Op::CreateNamed(pcs, n.elidx("CAN-PHYSICAL-CHANNEL"), ch.to_vec())))?;
+                if i == 0 && chans.len() > 1 {
+                    if let Some(ccs) = oknum(&g.push(Op::CreateSub(h, n.elidx("COMM-CONNECTORS")))) {
+                        if let Some(cc) = oknum(&g.push(Op::CreateSub(ccs, n.elidx("COMMUNICATION-CONNECTOR-REF-CONDITIONAL")))) {
+                            if let Some(rf) = oknum(&g.push(Op::CreateSub(cc, n.elidx("COMMUNICATION-CONNECTOR-REF")))) {
+                                g.push(Op::SetCData(rf, Val::S(b"/p1/Sig".to_vec())));
+                            }
+                        }
+                    }
+                }
+            }
+            Some((vs, cond))
+        };
+        let a = mk(g, b"CA", &[b"Ch1"]);
+        let b = mk(g, b"CB", &[b"Ch0", b"Ch1"]);
+        if let (Some((vs_a, _)), Some((_, cond_b))) = (a, b) {
+            if variant % 2 == 0 {
+                g.push(Op::Copy(vs_a, cond_b));
+            } else {
+                g.push(Op::CopyAt(vs_a, cond_b, 0));
+            }
+        }
+    }
     if variant % 11 == 7 && elems.len() >= 2 {
         // names at the length limit of SHORT-NAME (127 / 128 characters) that collide when an element moves or is copied:
         // make_unique_item_name appends `_1` (C07 known finding unique-name-exceeds-max-length on the unchanged tree;
